@@ -58,6 +58,40 @@ def canon(v, depth=0):
     return ['other', type(v).__module__ + '.' + type(v).__qualname__]
 
 
+def canon_graph(v):
+    """canon(v) plus the sharing structure: which containers/objects are the
+    same object (numbered in first-visit order)."""
+    seen = {}
+    shape = []
+
+    def walk(x, depth):
+        if depth > 60:
+            return
+        if isinstance(x, (list, dict, tuple, set)) or getattr(type(x), '_sim_uid', None) is not None \
+                and not isinstance(x, (str, enum.Enum, collections.UserString)):
+            k = id(x)
+            if k in seen:
+                shape.append(['ref', seen[k]])
+                return
+            seen[k] = len(seen)
+            shape.append(['new', seen[k]])
+            if isinstance(x, dict):
+                for a, b in x.items():
+                    walk(a, depth + 1)
+                    walk(b, depth + 1)
+            elif isinstance(x, (list, tuple)):
+                for a in x:
+                    walk(a, depth + 1)
+            elif not isinstance(x, set):
+                try:
+                    for a in vars(x).values():
+                        walk(a, depth + 1)
+                except TypeError:
+                    pass
+    walk(v, 0)
+    return [canon(v), shape]
+
+
 _ADDR = re.compile(r'0x[0-9a-fA-F]+')
 # in "<unicode string>", line 1, column 1   /  in "/path/x.yaml", line ..
 _IN_SRC = re.compile(
